@@ -8,6 +8,7 @@
 #include <cstdarg>
 #include <cstdio>
 #include <cstdlib>
+#include <cctype>
 #include <cstring>
 #include <exception>
 #include <memory>
@@ -325,7 +326,13 @@ namespace {
             what = "std::terminate without active exception";
         }
         std::string who = t_self ? t_self->name : "unregistered-thread";
-        fatal("terminate", "sim.terminate:uncaught-exception", "thread " + who + ": " + what);
+        std::string tag;
+        for (char c : what) {
+            if (std::isalnum(static_cast<unsigned char>(c))) tag.push_back(static_cast<char>(std::tolower(static_cast<unsigned char>(c))));
+            else if (!tag.empty() && tag.back() != '-') tag.push_back('-');
+            if (tag.size() >= 70) break;
+        }
+        fatal("terminate", "sim.terminate:" + tag, "thread " + who + ": " + what);
     }
 
 } // namespace
